@@ -77,8 +77,11 @@ def run_check(pid, tier, seed, replay=None):
     known_hits = []
     stats = {"evaluations": 0, "distinct": set(), "classes": {}, "samples": [], "per_feature_set": {}}
     kf = core.known_findings()
-    all_results = {}
-    if ok:
+    # the thorough tier repeats the whole correspondence with independent generator seeds (VERIF_THOROUGH_ROUNDS, default 4)
+    rounds = 1 if (tier != "thorough" or replay) else max(1, int(os.environ.get("VERIF_THOROUGH_ROUNDS", "4")))
+    for rnd in range(rounds if ok else 0):
+        all_results = {}
+        rrng = rng if rnd == 0 else rng.fork(f"round{rnd}")
         for fs in fsets:
             fk = core.featkey(list(fs) + list(extra))
             if not builds[fk][0]:
@@ -90,11 +93,11 @@ def run_check(pid, tier, seed, replay=None):
                 if rp.get("case"):
                     cases = [rp["case"]]
             else:
-                cases = corpus_cases(pid, fs) + prop.cases(tier, rng.fork('all' if getattr(prop, 'SAME_CASES_ALL_FEATURES', False) else fk), schema, fs)
+                cases = corpus_cases(pid, fs) + prop.cases(tier, rrng.fork('all' if getattr(prop, 'SAME_CASES_ALL_FEATURES', False) else fk), schema, fs)
             lines = [c for c in cases]
             m = core.run_model(lines, fs)
             i = core.run_impl(lines, fs, extra_features=extra)
-            stats["per_feature_set"][fk] = len(lines)
+            stats["per_feature_set"][fk] = stats["per_feature_set"].get(fk, 0) + len(lines)
             if hasattr(prop, "cross_features"):
                 all_results[fk] = {l.split("\t", 1)[0]: (l, m.get(l.split("\t", 1)[0]), i.get(l.split("\t", 1)[0])) for l in lines}
             if hasattr(prop, "cross"):
@@ -123,8 +126,9 @@ def run_check(pid, tier, seed, replay=None):
                 if m.get(key):
                     problems.append(("driver", "model driver failed on a shard: " + m[key][:500]))
 
-    if hasattr(prop, "cross_features") and all_results:
-        mismatches += prop.cross_features(all_results)
+
+        if hasattr(prop, "cross_features") and all_results:
+            mismatches += prop.cross_features(all_results)
 
     # 5. known-finding witnesses (cases where the property itself, not the model, is the oracle)
     for w in getattr(prop, "WITNESSES", []):
